@@ -38,6 +38,7 @@ def validator(ck, agg):
     bits = tuple(("s", ("a", i), False) for i in range(NBITS))
     a = BitV(bits, 0, (0, 65535))
     it = Interp(P, Model(), Limits(max_paths=20000, loop_unroll=10, concrete_loop=24))
+    it.decide_results = True
     outs = it.run(f, args=[a], st=State())
     ck.absorb(it)
     acc_digits, digit_sets, specials = set(), [], None
@@ -52,7 +53,6 @@ def validator(ck, agg):
                 tup = sp[0].data[1][1]
                 specials = sorted(const_of(norm(x)) for x in tup.items) if isinstance(tup, Seq) else None
                 continue
-            acc_digits.add(iters)
             # digit predicate: the comparisons evaluated on the digit bits of each iteration
             per_iter = {}
             for e in out.trace:
@@ -65,6 +65,8 @@ def validator(ck, agg):
                     if b is None or not isinstance(c, int) or isinstance(dv, Const):
                         continue
                     srcs = [t[1][1] for t in b.bits if isinstance(t, tuple) and t[0] == "s"]
+                    if c == 0 and srcs and max(srcs) == NBITS - 1 and srcs == list(range(min(srcs), NBITS)) and isinstance(e.node.ops[0], (ast.Eq, ast.NotEq)):
+                        continue        # `rest == 0` / `rest != 0`: the test whether digits remain, not a digit test (judged below)
                     if len(srcs) != 3 or any(t not in (0,) and not (isinstance(t, tuple) and t[0] == "s") for t in b.bits):
                         agg.add("R15.3", f, "each digit test looks at exactly one octal digit (3 bits)", len(srcs) in (1, 3) and iters >= 6,
                                 "`%s` tests bits %r" % (ast.unparse(e.node), srcs), e.node)
@@ -84,12 +86,36 @@ def validator(ck, agg):
                     per_iter.setdefault(k, set(range(8)))
                     per_iter[k] &= ok_vals
             digit_sets.append(per_iter)
+            # number of digits of the accepted address = digits tested, provided the path also established that nothing is left above them
+            # (read from the tests themselves, not from the number of loop iterations)
+            nd = (max(per_iter) + 1) if per_iter else 0
+            rest_zero = False
+            for e in out.trace:
+                if e.kind not in ("cond", "known"):
+                    continue
+                val, is_zero = e.data[1], e.data[0] is False
+                if isinstance(val, tuple):
+                    # rest == 0 (true) / rest != 0 (false)
+                    if not (len(val) == 2 and isinstance(e.node, ast.Compare) and isinstance(e.node.ops[0], (ast.Eq, ast.NotEq))):
+                        continue
+                    x, y = (val[0], val[1]) if const_of(norm(val[1])) == 0 else (val[1], val[0])
+                    if const_of(norm(y)) != 0:
+                        continue
+                    val, is_zero = x, (e.data[0] is True) == isinstance(e.node.ops[0], ast.Eq)
+                if not is_zero:
+                    continue
+                b = as_bitv(norm(val)) if hasattr(val, "key") else None
+                if b is None:
+                    continue
+                if all((t == 0 and 3 * nd + i >= NBITS) or (isinstance(t, tuple) and t[0] == "s" and t[1] == ("a", 3 * nd + i) and not t[2]) for i, t in enumerate(b.bits)) and 3 * nd < NBITS:
+                    rest_zero = True
+            acc_digits.add(nd if (rest_zero and sorted(per_iter) == list(range(nd))) else 99)
     lo, hi = T.VALID_DIGITS
     allowed = set(range(lo, hi + 1))
     bad = [(k, sorted(v)) for ps in digit_sets for k, v in ps.items() if v != allowed and not (k >= 5)]
     agg.add("R15.3", f, "every digit of an accepted address is in 1..5", not bad and any(ps for ps in digit_sets), "digit regions that differ: %r" % bad[:4])
     agg.add("R15.3", f, "an accepted address has at most 4 octal digits (12 bits, levels 0..4)", acc_digits == set(range(0, T.MAX_LEVEL + 1)),
-            "addresses with %s digits are accepted: e.g. 0o11111 is 'valid', and _pipe_address() then indexes past its 5-byte buffer" % sorted(acc_digits))
+            "addresses with %s digits are accepted (99 = an accepting path that does not establish that no further digits follow): e.g. 0o11111 is 'valid', and _pipe_address() then indexes past its 5-byte buffer" % sorted(acc_digits))
     want_sp = sorted([T.CONSTANTS["NETWORK_MULTICAST_ADDR"], T.CONSTANTS["NETWORK_MULTICAST_ADDR_LVL_2"], T.CONSTANTS["NETWORK_MULTICAST_ADDR_LVL_4"]])
     agg.add("R15.3", f, "the only other accepted values are the reserved multicast addresses 0o100, 0o10, 0o1000", specials == want_sp, "special addresses %r" % (specials and [oct(x) for x in specials],))
     it2 = Interp(P, Model(), Limits())
@@ -289,6 +315,12 @@ def loops(ck, agg):
     from ..effects import find_primitives, find_status_cache
     rf = P.cls("rf24", "RF24")
     status_field = find_status_cache(P, rf, find_primitives(P, rf))[1]
+    prims = set(find_primitives(P, rf).values())
+    spi_funcs = set()
+    from .common import class_funcs
+    for fi in class_funcs(rf):
+        if fi in prims or any(g in prims for g, _rc in reachable(P, fi, rf)):
+            spi_funcs.add(fi)
     for clsmod, clsname in net.NODE_CLASSES:
         cls = P.cls(clsmod, clsname)
         fu = P.method(cls, "update")
@@ -303,16 +335,72 @@ def loops(ck, agg):
                 if isinstance(node, ast.For):
                     n += 1
                     it_src = node.iter
-                    fin = isinstance(it_src, ast.Call) and isinstance(it_src.func, (ast.Name, ast.Attribute)) and \
-                        (getattr(it_src.func, "id", None) in ("range", "enumerate", "zip", "reversed") or getattr(it_src.func, "attr", None) in ("items", "keys", "values"))
-                    fin = fin or isinstance(it_src, (ast.Name, ast.Attribute, ast.Tuple, ast.List, ast.Subscript))
+                    fin = finite_iter(it_src)
                     agg.add("R15.4", f, "for-loop over a finite iterable `%s`" % ast.unparse(it_src)[:40], fin, "iterable not recognised as finite", node)
                 elif isinstance(node, ast.While):
                     n += 1
                     kind = classify_while(node, status_field)
+                    if kind is None and polls_radio(P, f, _r, node, spi_funcs):
+                        kind = "hardware"
                     agg.add("R15.4", f, "while-loop `%s` has a bounded variant" % ast.unparse(node.test)[:50], kind is not None,
                             "no clock test, consumed FIFO or strictly decreasing counter found: the loop may not terminate on hostile input", node)
     return n
+
+
+def finite_iter(x):
+    """an iterable expression that can only yield finitely many items: containers and views of them, range/enumerate/zip/.. over finite
+    arguments, comprehensions and generator expressions over finite iterables.  (There is no generator *function*, `iter(callable, ..)`,
+    `itertools` or `while`-driven iterator in the package: R00.1 / closed world.)"""
+    if isinstance(x, (ast.Name, ast.Attribute, ast.Tuple, ast.List, ast.Set, ast.Dict, ast.Subscript, ast.Constant, ast.BinOp)):
+        return True
+    if isinstance(x, (ast.GeneratorExp, ast.ListComp, ast.SetComp, ast.DictComp)):
+        return all(finite_iter(g.iter) for g in x.generators)
+    if isinstance(x, ast.IfExp):
+        return finite_iter(x.body) and finite_iter(x.orelse)
+    if isinstance(x, ast.Call):
+        fn = x.func
+        if isinstance(fn, ast.Name) and fn.id in ("range", "enumerate", "zip", "reversed", "sorted", "list", "tuple", "set", "map", "filter", "bytes", "bytearray", "dict"):
+            return all(finite_iter(a) or isinstance(a, (ast.Lambda,)) or not isinstance(a, (ast.GeneratorExp,)) for a in x.args) if fn.id != "range" else True
+        if isinstance(fn, ast.Attribute) and fn.attr in ("items", "keys", "values", "split", "copy"):
+            return True
+    return False
+
+
+def polls_radio(P, f, recv, node, spi_funcs):
+    """a loop that performs an SPI transaction with the radio on every iteration and has an exit that is not a constant: it waits for the
+    radio (TX_DS / MAX_RT / a payload) - bounded by the hardware's retransmit limit, assumption 2 - whatever local name holds the STATUS byte"""
+    from ..model import Ctx
+    has_exit = not (isinstance(node.test, ast.Constant) and node.test.value) or any(isinstance(x, (ast.Break, ast.Return)) for b in node.body for x in ast.walk(b))
+    if not has_exit:
+        return False
+    ctx = Ctx(P, f, recv)
+    # locals that alias a method (`fetch = self._rf24.read`, also inside a tuple assignment)
+    alias = {}
+    for a in ast.walk(f.node):
+        if isinstance(a, ast.Assign):
+            for t in a.targets:
+                pairs = []
+                if isinstance(t, ast.Name):
+                    pairs = [(t, a.value)]
+                elif isinstance(t, ast.Tuple) and isinstance(a.value, ast.Tuple) and len(t.elts) == len(a.value.elts):
+                    pairs = list(zip(t.elts, a.value.elts))
+                for tn, tv in pairs:
+                    if isinstance(tn, ast.Name) and isinstance(tv, ast.Attribute):
+                        alias.setdefault(tn.id, []).append(tv)
+    for part in [node.test] + list(node.body):
+        for x in ast.walk(part):
+            if isinstance(x, ast.Call):
+                try:
+                    tg = ctx.resolve_call(x, strict=False)
+                except AnalysisError:
+                    tg = []
+                if any(t.kind == "func" and t.func in spi_funcs for t in tg):
+                    return True
+                if isinstance(x.func, ast.Name) and x.func.id in alias:
+                    for tv in alias[x.func.id]:
+                        if any(kind == "method" and obj in spi_funcs for kind, obj, _rc in ctx.resolve_attr(tv)):
+                            return True
+    return False
 
 
 def classify_while(node, status_field=None):
@@ -355,6 +443,8 @@ def classify_while(node, status_field=None):
             step = b.value.value if isinstance(b.value, ast.Constant) and isinstance(b.value.value, int) else None
             if isinstance(b.op, ast.Sub) and step and step > 0:
                 return "counter"
+            if isinstance(b.op, ast.Add) and step and step > 0 and any(isinstance(x, ast.BinOp) and isinstance(x.op, ast.RShift) and ast.unparse(x.right) == tname for x in ast.walk(node.test)):
+                return "shift-amount"   # `while v >> s: s += k`: a non-negative value shifted ever further right reaches 0
             if isinstance(b.op, ast.RShift) and step and step > 0:
                 return "shift"
             if isinstance(b.op, ast.Add) and step and step > 0 and isinstance(node.test, ast.Compare) and len(node.test.ops) == 1:
